@@ -25,7 +25,9 @@ MANIFEST = dict(
          'shape/index loops (headers after the fix: commits fixes/C05-*.diff); theorems for every extent, every start/stop/step (omitted, '
          'negative, out of range, empty, negative step), integers in range, one ellipsis in any position, fewer entries than axes, any rank: '
          'the normalisation equals CPython PySlice_AdjustIndices, shape and every element equal Python slice.indices / NumPy basic indexing, '
-         'indices stay in the source shape, packed = dynamic encoding. Correspondence: exhaustive per-axis run of the real headers against '
+         'indices stay in the source shape, packed = dynamic encoding; the reference length is proved to count Python range(start,stop,step), a range never '
+         'outgrows its axis, a[:] is the identity, a[::-1] the reversal, a slice of a slice is the single composed walk (one axis, and nested views of any rank), '
+         'the element map is injective (mutable_slice writes do not collide). Correspondence: exhaustive per-axis run of the real headers against '
          'model and CPython/NumPy on every check.',
     note='Model is hand-written; fidelity rests on the differential run (IMPL = MODEL required on every generated input, also where IMPL = oracle). '
          'slice_indices works in signed 64 bit: modelled in unbounded Int, sound for extents below 2^62 (hypothesis of the theorems) and int parts. '
@@ -431,8 +433,77 @@ def witnesses():
         yield mk(enc, level, shape, es, ['witness'])
 
 
+def gen_nested(tier, rng):
+    """a[sl][sl2]: a slice view of a slice view (theorems slice_of_slice, slice_of_slice_view): all-int entries (the
+    array<int,3> run-time encoding), single axis exhaustively on a grid, then ranks 2..3 with integers and an ellipsis"""
+    def one(shape, es1, es2, tags):
+        try:
+            base = np.arange(prod(shape), dtype=np.int64).reshape(shape)
+            mid = base[np_index(es1)]
+            res = mid[np_index(es2)]
+        except (IndexError, ValueError):
+            return None
+        if not (dom_entries(shape, es1) and dom_entries(list(mid.shape), es2)):
+            return None
+        flat = [int(x) for x in np.asarray(res).ravel()]
+        o = 'ok shape=%s data=%s' % (fmt(list(res.shape)), fmt(flat))
+        req = 'slice2 shape=%s sl=%s sl2=%s' % (fmt(shape), fmt_entries(es1), fmt_entries(es2))
+        return Case(req, 'h_c05_dyn', dom=True, oracle=o, nontrivial=len(flat) > 1, cmp=cmp_unmodelled,
+                    tags=list(tags) + ['nested', 'rank=%d' % len(shape), 'empty' if not flat else 'non-empty'])
+    N = 5 if tier == 'quick' else 7
+    steps = [-2, -1, 1, 2] if tier == 'quick' else [-3, -2, -1, 1, 2, 3]
+    k = 0
+    for n in range(1, N + 1):
+        vals = list(range(-(n + 1), n + 2))
+        for a1 in vals:
+            for b1 in vals:
+                for c1 in steps:
+                    l1 = _pylen(n, a1, b1, c1)
+                    if l1 == 0:
+                        continue
+                    v2 = list(range(-(l1 + 1), l1 + 2))
+                    for a2 in v2:
+                        for b2 in v2:
+                            for c2 in steps:
+                                k += 1
+                                if tier == 'quick' and k % 7:
+                                    continue
+                                if tier != 'quick' and k % 5:
+                                    continue
+                                yield one([n], [('r', a1, b1, c1)], [('r', a2, b2, c2)], ['single-axis'])
+    def rentry(n, allow_int=True):
+        t = rng.random()
+        if allow_int and t < 0.3:
+            return ('i', rng.randrange(-n, n))
+        return ('r', rng.randrange(-(n + 1), n + 2), rng.randrange(-(n + 1), n + 2), rng.choice([-2, -1, 1, 2, 3]))
+    def rindex(shape):
+        es = []
+        nax = rng.randint(0, len(shape))
+        ell = rng.random() < 0.4
+        pos = rng.randint(0, nax) if ell else None
+        axes = list(range(len(shape)))
+        # entries address the leading axes before the ellipsis and the trailing ones after it
+        lead = nax if pos is None else pos
+        for j in range(nax):
+            ax = j if j < lead else len(shape) - (nax - j)
+            es.append(rentry(shape[ax]))
+        if ell:
+            es.insert(pos, ('e',))
+        return es
+    for _ in range(1500 if tier == 'quick' else 12000):
+        shape = [rng.randint(1, 5) for _ in range(rng.randint(2, 3))]
+        es1 = rindex(shape)
+        try:
+            mid = list(np.broadcast_to(np.int8(0), shape)[np_index(es1)].shape)
+        except (IndexError, ValueError):
+            continue
+        if not mid or 0 in mid:
+            continue
+        yield one(shape, es1, rindex(mid), ['multi-axis'])
+
+
 def gen(tier, rng):
-    for g in (witnesses(), gen_single_axis(tier), gen_int_exhaustive(tier), gen_multi_axis(tier, rng), gen_large(tier, rng)):
+    for g in (witnesses(), gen_single_axis(tier), gen_int_exhaustive(tier), gen_multi_axis(tier, rng), gen_large(tier, rng), gen_nested(tier, rng)):
         for c in g:
             if c is not None:
                 yield c
